@@ -187,6 +187,26 @@ def direct_c03(case, obs):
     return fails
 
 
+RULE_NOTE = {
+    "C02": ("; plus a probe stream that always runs (implementation only): hand-written operations whose REPLAYED code changes in "
+            "place what an interception handed to it - every container shape x data handler {none, pass-through, wrapping: restore "
+            "keeps a reference to the recorded form}, a recorded exception, an output's result - and requests the same call again, "
+            "replayed twice (recording enabled / disabled) on the three cassettes"),
+    "C03": ("; plus a probe stream that always runs (implementation only): `saved = store(entity)`, `index(saved)` programs whose "
+            "output RESULT shares objects with output arguments (store returns its argument / a wrapper around it / a fresh value, "
+            "without and with output data handlers, also after the entity went to another output) and whose replayed edit works in "
+            "place on the result before it is sent on / after everything was sent, on the three cassettes"),
+}
+MANIFEST_NOTE = {
+    "C02": (" Mutable answers (outside the model, direct predicate only): when replayed code changes in place what an interception "
+            "handed to it and requests the same call again, every answer still equals the value recorded for that call, no body runs, "
+            "play() only fetches and the recording the replay worked on holds what was recorded."),
+    "C03": (" Mutable values (outside the model, direct predicate only): recorded outputs stay exactly what the recorded program sent, "
+            "and differ from the playback outputs at exactly the edited entries, also when an output's recorded result shares objects "
+            "with recorded output arguments and the replayed code works on that result in place."),
+}
+
+
 # ---- plumbing ---------------------------------------------------------------------------------------------------------------
 
 def features(case):
@@ -217,6 +237,10 @@ def install(g, pid):
             return [("driver", obs["driver_exception"] + obs.get("trace", "")[-400:])]
         return direct_fn(case, obs)
     g["generate"], g["direct"] = generate, direct
+    g["RULE"] = g["RULE"] + RULE_NOTE[pid]
+    g["MANIFEST"] = dict(g["MANIFEST"], text=g["MANIFEST"]["text"] + MANIFEST_NOTE[pid])
+    g["TRUSTED"] = list(g.get("TRUSTED", [])) + ["alias probe stream: harness-side journal of what the hand-written operation was "
+                                                 "handed and what it sent (snapshots taken at the call)"]
     g["to_gallina"] = lambda case, obs: None if is_alias(case) else own["to_gallina"](case, obs)
     g["explain"] = lambda case, obs: "tt" if is_alias(case) else own["explain"](case, obs)
     g["features"] = lambda case: features(case) if is_alias(case) else own["features"](case)
